@@ -451,6 +451,7 @@ def xsd_repr(value: AnyXSDType) -> str:
     elif isinstance(value, (DateTime, Time)):
         # TODO fix trailing zeros of seconds fraction (XSD:
         #  "The fractional second string, if present, must not end in '0'")
+        _check_xsd_utcoffset(value.utcoffset())
         return value.isoformat()
     elif isinstance(value, Date):
         return value.isoformat() + _serialize_date_tzinfo(value)
@@ -483,6 +484,12 @@ def xsd_repr(value: AnyXSDType) -> str:
         return str(value)
 
 
+def _check_xsd_utcoffset(offset: Optional[datetime.timedelta]) -> None:
+    if offset is not None and (abs(offset) > datetime.timedelta(hours=14) or offset % datetime.timedelta(minutes=1)):
+        raise ValueError("Time zone offset {} cannot be represented in XSD (whole minutes from -14:00 to +14:00)"
+                         .format(offset))
+
+
 def _serialize_date_tzinfo(date: Union[Date, GYear, GMonth, GDay, GYearMonth, GMonthDay]) -> str:
     if date.tzinfo is not None:
         if isinstance(date, GMonthDay):
@@ -490,6 +497,7 @@ def _serialize_date_tzinfo(date: Union[Date, GYear, GMonth, GDay, GYearMonth, GM
         elif not isinstance(date, Date):
             date = date.into_date()
         offset: datetime.timedelta = date.tzinfo.utcoffset(datetime.datetime(date.year, date.month, date.day, 0, 0, 0))
+        _check_xsd_utcoffset(offset)
         offset_seconds = offset.total_seconds()
         if offset_seconds // 60 == 0:
             return "Z"
